@@ -38,10 +38,11 @@ pub enum Fam {
     FewMinterms,
     GatedPartSym,
     OneHotWords,
+    NearPairSym,
 }
 
 impl Fam {
-    pub const ALL: [Fam; 20] = [
+    pub const ALL: [Fam; 21] = [
         Fam::Random,
         Fam::Sparse,
         Fam::Dense,
@@ -62,6 +63,7 @@ impl Fam {
         Fam::FewMinterms,
         Fam::GatedPartSym,
         Fam::OneHotWords,
+        Fam::NearPairSym,
     ];
     pub fn name(self) -> &'static str {
         match self {
@@ -85,6 +87,7 @@ impl Fam {
             Fam::FewMinterms => "few-minterms",
             Fam::GatedPartSym => "gated-partially-symmetric",
             Fam::OneHotWords => "one-hot-words",
+            Fam::NearPairSym => "near-pair-symmetric",
         }
     }
 }
@@ -267,6 +270,36 @@ pub fn gen(f: Fam, n: usize, rng: &mut Rng) -> Vec<u64> {
                 };
                 let b = get(&v, pos);
                 set(&mut v, pos, !b);
+            }
+            v
+        }
+        Fam::NearPairSym => {
+            // symmetric in a pair of variables (a, b) except on a cube of the other variables: there the values at
+            // (a=1,b=0) and (a=0,b=1) differ.  The cube fixes all but 0..2 of the other variables (usually to 1), so
+            // the exception is a small, regularly repeated pattern — a near miss of a symmetry
+            if n < 3 {
+                return random_blocks(n, rng);
+            }
+            let vars = pick_vars(n, n, rng);
+            let (a, b) = (vars[0], vars[1]);
+            let mut v = random_blocks(n, rng);
+            for m in 0..size {
+                if (m >> a) & 1 == 0 && (m >> b) & 1 == 1 {
+                    let src = (m | (1 << a)) & !(1 << b);
+                    let bit = get(&v, src);
+                    set(&mut v, m, bit);
+                }
+            }
+            let free = rng.below(3);
+            let fixed: Vec<usize> = vars[2..].iter().copied().take((n - 2).saturating_sub(free)).collect();
+            let all_ones = rng.chance(2, 3);
+            let pol: Vec<bool> = fixed.iter().map(|_| all_ones || rng.bool()).collect();
+            for m in 0..size {
+                let in_cube = fixed.iter().zip(pol.iter()).all(|(x, p)| ((m >> x) & 1 == 1) == *p);
+                if in_cube && (m >> a) & 1 == 1 && (m >> b) & 1 == 0 {
+                    let bit = get(&v, m);
+                    set(&mut v, m, !bit);
+                }
             }
             v
         }
